@@ -30,19 +30,25 @@ import (
 // invoked:
 //
 //     for every value of the configuration fields the loop's count is computed from which the
-//     configuration validator accepts, the loop body is entered at least once.
+//     configuration validator accepts, the go statement is executed at least once before the code
+//     that follows the fan-out.
 //
-// How: the count is followed back from the loop to where its value is made — through struct fields
-// (by allocation site: a field holds what the function that allocated the struct stored into it),
-// copies of structs, parameters (bound at the call in hand, else over all call sites), constructor
-// results and defaults — until it ends in integer fields of a value the program receives from
-// outside (the configuration message).  For a finite set of sample values of those fields that
-// contains every constant the code compares them with (±1) and the extremes of their type, the chain
-// is then interpreted concretely: branch conditions over known integers are decided, everything else
-// stays open.  A sample is *accepted* when a success return of every validator of the message type
-// (func(*T) error) may execute; for every accepted sample the loop's first test must come out
-// "enter" for every value the count may have.  Nothing here names a function, a field or a
-// parameter position: the loops are found from the goroutines' work, the fields from the loops.
+// How: the shape of the function around the go statement gives the decisive tests — the branches
+// with one side from which the go statement can still be reached and one from which it cannot
+// while the code after the fan-out can (the loop's test before the first round, a guard around the
+// loop, …; nothing depends on how the loop is written).  Their operands are followed back to where
+// their values are made — through struct fields (by allocation site: a field holds what the
+// function that allocated the struct stored into it), copies of structs, parameters (bound at the
+// call in hand, else over all call sites), constructor results and defaults — until they end in
+// integer fields of a value the program receives from outside (the configuration message).  For a
+// finite set of sample values of those fields that contains every constant the code compares them
+// with (±1) and the extremes of their type, the chain is then interpreted concretely: branch
+// conditions over known integers are decided, everything else stays open.  A sample is *accepted*
+// when a success return of every validator of the message type (func(*T) error) may execute; for
+// every accepted sample no path from the function's entry may reach the code after the fan-out
+// without executing the go statement.  Beyond the property's anchors (fetchTail, runSubmitter, the
+// Fetcher.Run it calls) nothing here names a function, a field or a parameter position: the fan-outs
+// are found from the goroutines' work, the fields from the tests, the validator from its type.
 //
 // Also decided: the fields on the way are only ever written into structs the writing function
 // allocated itself (otherwise "what the allocating function stored" is not what a reader sees), and
@@ -83,6 +89,8 @@ type cntEval struct {
 	r                 *Run
 	sample            map[*types.Var]int64 // nil: discovery
 	inputs            map[*types.Var]*types.Named
+	condIn            map[*types.Var]*types.Named // outside integer fields met only in branch conditions on the way
+	noCond            bool                        // (while the validators are walked: their other tests are not on the way)
 	stuck             []cntStuck
 	holders           map[*types.Named]bool
 	consts            map[int64]bool
@@ -101,7 +109,7 @@ type cntEval struct {
 }
 
 func newCntEval(r *Run, sample map[*types.Var]int64, holders map[*types.Named]bool) *cntEval {
-	return &cntEval{r: r, sample: sample, inputs: map[*types.Var]*types.Named{}, holders: holders, consts: map[int64]bool{},
+	return &cntEval{r: r, sample: sample, inputs: map[*types.Var]*types.Named{}, condIn: map[*types.Var]*types.Named{}, holders: holders, consts: map[int64]bool{},
 		fields: map[*types.Var]bool{}, structs: map[*types.Named]bool{}, frames: map[[3]any]*cntFrame{}, busy: map[[2]any]bool{}, phiCtx: map[*ssa.Phi]ssa.Value{}}
 }
 
@@ -606,6 +614,9 @@ func (e *cntEval) resolve(fr *cntFrame, v ssa.Value, path []*types.Var, at ssa.I
 		if len(path) == 0 && cntIsInt(x.Type()) {
 			break // integers: intOf reads the φ edge by edge
 		}
+		if ed, ok := e.phiCtx[x]; ok && x.Parent() == fr.fn {
+			return e.resolve(fr, ed, path, at, depth+1)
+		}
 		key := [2]any{fr, v}
 		if e.busy[key] {
 			return cntUnk("the value " + e.r.D.D(v) + " is carried round a loop")
@@ -663,7 +674,28 @@ func (e *cntEval) resolveAddr(fr *cntFrame, addr ssa.Value, path []*types.Var, a
 			return e.resolveAddr(e.frame(pf, nil, nil), b, path, nil, depth+1)
 		}
 		return cntUnk("captured variable " + x.Name() + " of " + short(FuncName(fr.fn)) + " has no single binding")
-	case *ssa.Parameter, *ssa.Phi, *ssa.UnOp, *ssa.Call, *ssa.Extract, *ssa.ChangeType:
+	case *ssa.Phi:
+		// a variable that is a fresh one on every round of a loop (captured loop variables): the
+		// address is whichever the edge taken brings
+		if ed, ok := e.phiCtx[x]; ok && x.Parent() == fr.fn {
+			return e.resolveAddr(fr, ed, path, at, depth+1)
+		}
+		key := [2]any{fr, addr}
+		if e.busy[key] {
+			return cntUnk("the address " + e.r.D.D(addr) + " is carried round a loop")
+		}
+		e.busy[key] = true
+		defer delete(e.busy, key)
+		re := e.reachOf(fr)
+		var out []cntLeaf
+		for i, ed := range x.Edges {
+			if re != nil && !re.edges[[2]*ssa.BasicBlock{x.Block().Preds[i], x.Block()}] {
+				continue
+			}
+			out = append(out, e.resolveAddr(fr, ed, path, at, depth+1)...)
+		}
+		return out
+	case *ssa.Parameter, *ssa.UnOp, *ssa.Call, *ssa.Extract, *ssa.ChangeType:
 		if len(path) > 0 {
 			return e.resolve(fr, addr, path, at, depth+1)
 		}
@@ -710,6 +742,9 @@ func (e *cntEval) outside(fr *cntFrame, v ssa.Value, t types.Type, path []*types
 		return cntUnk(fmt.Sprintf("field %s of %s in %s: the value is not made in the program and is not an integer field of a message", cntPath(path), e.r.D.D(v), short(FuncName(fr.fn))))
 	}
 	if e.inCond > 0 {
+		if !e.noCond {
+			e.condIn[last] = holder
+		}
 		return []cntLeaf{{in: last}}
 	}
 	for _, f := range path {
@@ -1369,7 +1404,9 @@ func cntValidators(r *Run, T *types.Named) []*ssa.Function {
 
 // accepts: a success return of the validator may execute for the sample.
 func (e *cntEval) accepts(v *ssa.Function) bool {
+	e.noCond = true
 	re := e.reachOf(e.frame(v, nil, nil))
+	e.noCond = false
 	for _, ret := range sgOkReturns(v) {
 		if re == nil || re.blocks[ret.Block()] {
 			return true
@@ -1509,6 +1546,40 @@ func c20CountPositive(r *Run, fo cntFanOut, allFields map[*types.Var]bool, allSt
 			}
 		}
 		rec(0, map[*types.Var]int64{})
+		if len(undec) > 0 {
+			// the verdict hangs on other outside fields that only branch conditions on the way read:
+			// sample those too (same message type), if that stays small
+			var extra []*types.Var
+			for f, h := range disc2.condIn {
+				if _, isIn := disc2.inputs[f]; !isIn && holders[h] {
+					extra = append(extra, f)
+				}
+			}
+			sort.Slice(extra, func(i, j int) bool { return extra[i].Name() < extra[j].Name() })
+			// (one at a time: the first that settles every sample is the one the verdict hung on)
+			base, settled, tried := ins, false, false
+			for _, f := range extra {
+				if len(base) >= 2 || len(extra) > 8 {
+					break
+				}
+				tried = true
+				disc2.inputs[f] = disc2.condIn[f]
+				ins = append(append([]*types.Var{}, base...), f)
+				bad, undec, accepted, rejected, undecWhy = nil, nil, 0, 0, ""
+				rec(0, map[*types.Var]int64{})
+				if len(undec) == 0 {
+					settled = true
+					break
+				}
+				delete(disc2.inputs, f)
+				ins = base
+			}
+			if tried && !settled {
+				// nothing settled it: the verdict of the plain run stands
+				bad, undec, accepted, rejected, undecWhy = nil, nil, 0, 0, ""
+				rec(0, map[*types.Var]int64{})
+			}
+		}
 		fmtSample := func(s map[*types.Var]int64) string {
 			var parts []string
 			for _, f := range ins {
